@@ -208,7 +208,7 @@ func replayBed(raw []byte) *ev.Failure {
 }
 
 func init() {
-	for _, n := range []string{"c02.roundtrip@bed", "c02.constructed@bed", "c03.rpc@bed", "c16.middleware@bed", "bed.bindings@bed", "bed.scopes@bed", "c02.bed", "c03.bed", "c16.bed", "c08.bed"} {
+	for _, n := range []string{"c02.roundtrip@bed", "c02.constructed@bed", "c03.rpc@bed", "c16.middleware@bed", "bed.bindings@bed", "bed.scopes@bed", "c02.bed", "c03.bed", "c16.bed", "c08.bed", "c07.bed"} {
 		ev.Register(n, replayBed)
 	}
 }
@@ -219,3 +219,7 @@ func TestBedC16(t *testing.T) { bedBatch(t, "c16.bed", "TestBindings|TestC16|Tes
 
 // C08: the generated Go publishers and subscribers are executed against a recording broker.
 func TestBedC08(t *testing.T) { bedBatch(t, "c08.bed", "TestBindings|TestScopes") }
+
+// C07: generated publishers and subscribers of generated scopes, executed (exactly-once delivery of
+// every published payload to the subscriber of the same topic, nothing to others).
+func TestBedC07(t *testing.T) { bedBatch(t, "c07.bed", "TestBindings|TestScopes") }
